@@ -158,8 +158,9 @@ class Bound:
 
 
 class Partial:
-    def __init__(self, f, args, kwargs):
+    def __init__(self, f, args, kwargs, text=None):
         self.f, self.args, self.kwargs = f, tuple(args), dict(kwargs)
+        self.text = text  # how the wrapped callable was written (``self._command``): calls through the partial are reported under it
 
     def __repr__(self):
         return f"partial({self.f!r}, {self.args!r}, {self.kwargs!r})"
